@@ -43,8 +43,6 @@ def extract(ctx):
     ut = tail_of(su, r'inline\s+RamUnsigned\s+RamUnsignedFromString\s*\([^)]*\)\s*\{', log, 'RamUnsignedFromString')
     st = tail_of(su, r'inline\s+RamSigned\s+RamSignedFromString\s*\([^)]*\)\s*\{', log, 'RamSignedFromString')
     fb, _ = su.body(r'inline\s+RamFloat\s+RamFloatFromString\s*\([^)]*\)\s*\{')
-    csv = Source(os.path.join(ctx.repo, CSV))
-    rb, _ = csv.body(r'RamUnsigned\s+readRamUnsigned\s*\([^)]*\)\s*\{')
 
     def rules(t, ret):
         t = strip_comments(t)
@@ -57,18 +55,13 @@ def extract(ctx):
         return t
     ut2, st2 = rules(ut, 'RamUnsigned'), rules(st, 'RamSigned')
     ft2 = rules(fb, 'RamFloat')
-    rb2 = strip_comments(rb)
-    rb2, n = re.subn(r'\bRamUnsignedFromString\(', 'vx_RamUnsignedFromString(', rb2)
-    if n != 3:
-        raise ExtractError('readRamUnsigned: expected 3 calls of RamUnsignedFromString, found %d' % n)
     if log['R8 std::sto* -> vx_sto*'] < 2:
         raise ExtractError('R8 must fire in both tails')
     text = ('#include <string>\n#include <stdexcept>\n#include <cstddef>\n#include <cassert>\n#include "ramtypes.hpp"\n#include "vx_numparse.h"\nnamespace souffle {\n'
             'RamUnsigned ustr_tail(const std::string& tmp, std::size_t* position, const int base, bool parsingBinary) {\n%s}\n'
             'RamSigned sstr_tail(const std::string& tmp, std::size_t* position, const int base, bool parsingBinary) {\n%s}\n'
             '// whole body of RamFloatFromString\nRamFloat fstr_body(const std::string& str, std::size_t* position) {\n%s}\n'
-            'struct CSVScaffold {\nRamUnsigned readRamUnsigned(const std::string& element, std::size_t& charactersRead) {\n%s}\n};\n}\n'
-            % (ut2, st2, ft2, rb2))
+            '}\n' % (ut2, st2, ft2))
     ctx.write('extracted.hpp', text)
     ctx.rewrites.update(log)
     ctx.dropped += [
@@ -93,9 +86,6 @@ def harnesses(ctx):
         Harness('numparse.fstr', 'harness_fstr', cpp=cpp, c=c, enforce='h_fstr', must_have=['postcondition'],
                 clause='float literal: the stored value is the value the std parser produced, and a finite literal is never silently stored as an infinity (range rule)',
                 funcs=['souffle::RamFloatFromString']),
-        Harness('numparse.readRamUnsigned', 'harness_rru', cpp=cpp, c=c, enforce='h_readRamUnsigned', must_have=['postcondition'],
-                clause='CSV unsigned column: the value returned is the value RamUnsignedFromString produced (no narrowing through RamSigned)',
-                funcs=['souffle::ReadStreamCSV::readRamUnsigned']),
     ]
 
 
@@ -131,7 +121,6 @@ MUTANTS = [
     dict(name='unsigned range check dropped', file=SU, find=r'if \(val > std::numeric_limits<RamUnsigned>::max\(\)\) \{\s*throw std::invalid_argument\("Unsigned number of of bounds"\);\s*\}', repl='', expect=r'numparse\.ustr_tail :: .*postcondition'),
     dict(name='signed uses stol', file=SU, find=r'val = std::stoi\(tmp, position, base\);', repl='val = std::stol(tmp, position, base);', expect=r'numparse\.sstr_tail :: .*postcondition'),
     dict(name='unsigned position += 3', file=SU, find=r'(return RamUnsignedFromString\(str, position\);.*?\*position \+= )2', repl=r'\g<1>3', expect=r'numparse\.ustr_tail :: .*postcondition'),
-    dict(name='readRamUnsigned narrows via short', file=CSV, find=r'RamSigned value = 0;', repl='short value = 0;', expect=r'numparse\.readRamUnsigned :: .*postcondition'),
     dict(name='float parsed as double and narrowed', file=SU, find=r'val = std::stof\(str, position\);', repl='val = std::stod(str, position);', expect=r'numparse\.fstr :: .*postcondition'),
     dict(name='unsigned range check off by one', file=SU, find=r'if \(val > std::numeric_limits<RamUnsigned>::max\(\)\)', repl='if (val > std::numeric_limits<RamSigned>::max())', expect=r'numparse\.ustr_tail :: .*postcondition'),
 ]
